@@ -24,12 +24,14 @@ T = {
  "C11-2": ("C11", "bc0da83", "cancellation between sem.Acquire succeeding and the worker taking the process lock leaks the slot", ["C11"], "VIOLATION (interpreter-schedule) by cancel-at-any-step"),
  "C15-1": ("C15", "bc0da83", "several heads, every branch shorter than the limit, union longer", ["C15"], "VIOLATION (interpreter-schedule: depends on the order of Load's per-head goroutines)"),
  "C17-1": ("C17", "bc0da83", "two concurrent writers, puts in the opposite order of appends, then restart", ["C17"], "VIOLATION (native replay by turnstile)"),
- "C14-2": ("C14", "8d80099", "two different names that clean to the same path (nested//db vs nested/db)", ["C14"], "VIOLATION (native replay)"),
- "C05-2": ("C05", "8d80099", "two concurrent remote branches replicated in separate batches, then restart (only the last batch's heads are cached)", ["C05"], "VIOLATION (native replay)"),
- "C08-2": ("C08", "8d80099", "entries sharing a Lamport time (concurrent writers) and a bound on the wrong side of its tie group", ["C08"], "VIOLATION (native replay) after clock times were made symbolic with ties"),
- "C13-2": ("C13", "8d80099", "header longer than 65535 bytes while every entry is shorter (uint16 variable makes the guard dead)", ["C13"], "VIOLATION (native replay with real payload sizes)"),
- "C06-2": ("C06", "8d80099", "two writers on the same key with equal Lamport time (index sorts on time only)", ["C06"], "VIOLATION (native replay)"),
- "C20-2": ("C20", "8d80099", "two overlapping Connect calls for the same peer (check-then-act)", ["C20"], "VIOLATION (interpreter-schedule, P=1) by VerifC20ConnectRace"),
+ "C14-2": ("C14", "809b9c4", "two different names that clean to the same path (nested//db vs nested/db)", ["C14"], "VIOLATION (native replay)"),
+ "C05-2": ("C05", "809b9c4", "two concurrent remote branches replicated in separate batches, then restart (only the last batch's heads are cached)", ["C05"], "VIOLATION (native replay)"),
+ "C08-2": ("C08", "809b9c4", "entries sharing a Lamport time (concurrent writers) and a bound on the wrong side of its tie group", ["C08"], "VIOLATION (native replay) after clock times were made symbolic with ties"),
+ "C13-2": ("C13", "809b9c4", "header longer than 65535 bytes while every entry is shorter (uint16 variable makes the guard dead)", ["C13"], "VIOLATION (native replay with real payload sizes)"),
+ "C06-2": ("C06", "809b9c4", "two writers on the same key with equal Lamport time (index sorts on time only)", ["C06"], "VIOLATION (native replay)"),
+ "C20-2": ("C20", "809b9c4", "two overlapping Connect calls for the same peer (check-then-act)", ["C20"], "VIOLATION (interpreter-schedule, P=1) by VerifC20ConnectRace"),
+ "C01-2": ("C01", "809b9c4", "two writers' concurrent branches reach a reader in separate batches (only the last batch's heads are cached), then the reader restarts from its own disk", ["C01"], "VIOLATION by the batched-reader restart route added to Converge (all three store harnesses)"),
+ "C16-2": ("C16", "809b9c4", "a local write on a key-value/document store while a replicated batch is inside its view rebuild (coalesced rebuild returns before the view holds the write)", ["C16"], "VIOLATION (interpreter-schedule: local write injected at the view-rebuild lock) by VerifC16WriteDuringMerge"),
 }
 for seed, (prop, base, needs, by, note) in T.items():
     d = os.path.join(V, "seeded", seed)
